@@ -1,6 +1,7 @@
 import TPV.Model.Proto
 import TPV.Model.Space
 import TPV.Model.Points
+import TPV.Model.DType
 open TPV TPV.Proto TPV.Table
 
 /-! line protocol of C12 (see harness/c12.py); every operand is carried in the request line -/
@@ -59,6 +60,26 @@ def showSpace (s : Space) : String :=
 
 def showPoints (p : Points Rat) : String :=
   s!"P {showSpace p.space} | {showNats p.shape} | {showList showRat p.data.flatten}"
+
+def pDType : P DType := do
+  let t ← next
+  match t with
+  | "i64" => pure .i64
+  | "f32" => pure .f32
+  | "f64" => pure .f64
+  | _ => throw s!"dtype:{t}"
+
+def pTPoints : P (TPoints Rat) := do
+  let t ← pDType
+  let p ← pPoints
+  pure ⟨t, p⟩
+
+/-- a typed result is comparable only when every cell is a value of the resulting element type -/
+def showT : Except Err (TPoints Rat) → String
+  | .ok r =>
+    if r.pts.data.all (·.all (fits r.dtype)) then s!"{r.dtype.name} {showPoints r.pts}" else "unmodelled"
+  | .error .unmodelled => "unmodelled"
+  | .error e => s!"err:{e.name}"
 
 def showE {β} (f : β → String) : Except Err β → String
   | .ok b => f b
@@ -126,6 +147,31 @@ def step (line : String) : String :=
       let p ← pPoints
       let ms ← many (do let ix ← pIndex; let q ← pPoints; pure (ix, q))
       return showE showPoints (ms.foldlM (fun acc (m : Index × Points Rat) => acc.setitem m.1 m.2) p)
+    | "dt.join" => do let p ← pTPoints; let q ← pTPoints; return showT (p.join q)
+    | "dt.cat" => do let p ← pTPoints; let q ← pTPoints; return showT (p.cat q)
+    | "dt.joined" => do let ps ← many pTPoints; return showT (TPoints.joined ps)
+    | "dt.arith" => do
+      let o ← next; let p ← pTPoints; let q ← pTPoints
+      -- torch converts both operands to the promoted type first: comparable only if nothing rounds there
+      let t := promote p.dtype q.dtype
+      let exact := p.pts.data.all (·.all (fits t)) && q.pts.data.all (·.all (fits t))
+      let r ← match o with
+        | "add" => pure (p.arith (· + ·) q)
+        | "sub" => pure (p.arith (· - ·) q)
+        | "mul" => pure (p.arith (· * ·) q)
+        | _ => throw s!"dt.arith:{o}"
+      match r with
+      | .ok _ => return (if exact then showT r else "unmodelled")
+      | _ => return showT r
+    | "dt.set" => do let p ← pTPoints; let ix ← pIndex; let q ← pTPoints; return showT (p.setitem ix q)
+    | "dt.get" => do let p ← pTPoints; let ix ← pIndex; return showT (p.getitem ix)
+    | "dt.repeat" => do let p ← pTPoints; let ns ← many int; return showT (p.repeat ns)
+    | "dt.from" => do
+      let cs ← many (do
+        let t ← pDType; let n ← next; let sh ← many nat; let w ← nat; let xs ← many rat
+        if xs.length ≠ prodL sh * w then throw "from:cells"
+        pure (t, (⟨n, sh, w, chunkRows w (prodL sh) xs⟩ : Coord Rat)))
+      return showT (TPoints.fromCoordinates cs)
     | "pts.arith" => do
       let o ← next; let p ← pPoints; let q ← pPoints
       match arithFn o with
